@@ -188,13 +188,22 @@ def rerun_model(io):
 
 
 def match_known(known, hist, dv, verdict):
+    """a known finding suppresses only the failing cases its matcher describes"""
+    import re
+    text = ' '.join([str(verdict or ''), str((dv or {}).get('line', '')), str((dv or {}).get('field', ''))])
     for k in known:
         if k.get('status') != 'known':
             continue
         m = k.get('matcher', {})
-        text = ' '.join([str(verdict or ''), str((dv or {}).get('line', '')), str((dv or {}).get('field', ''))])
-        if m.get('verdict_contains') and m['verdict_contains'] in text:
-            return k
+        if not m:
+            continue
+        if 'cfg' in m and any(hist.get('cfg', {}).get(a) != b for a, b in m['cfg'].items()):
+            continue
+        if 'verdict_contains' in m and m['verdict_contains'] not in text:
+            continue
+        if 'verdict_regex' in m and not re.search(m['verdict_regex'], text):
+            continue
+        return k
     return None
 
 
@@ -269,3 +278,10 @@ def tag(x):
     if isinstance(x, list):
         return [tag(v) for v in x]
     return x
+
+
+def line_field(line, name):
+    for tok in line.split(' '):
+        if tok.startswith(name + '='):
+            return tok[len(name) + 1:]
+    return None
